@@ -37,7 +37,7 @@ func main() {
 		return
 	}
 	hk.InstallHook()
-	hk.Rule("name-linearizability L/k: 1-3 names x 3-6 client goroutines x 8-21 seeded random operations (Node.RegisterName, Process.RegisterName, SpawnRegister, Node/Process.UnregisterName, terminate by kill/exit/normal, resolve by send or Call) over processes dedicated to one name, seeded delays at the yield points of unregisterProcess/Kill/run (odd k: also inside RegisterName/UnregisterName); non-trivial iff >=2 claim operations of one name overlapped in time; event-linearizability E/k the same for one event name with tokens. one-winner W/WE: n claimers released together from a gate, non-trivial iff >=2 claim intervals overlapped. directed D: an operation parked at a yield point (or inside a callback) while the process terminates completely, non-trivial iff the gate fired. release R/cause/shape: subject with name+aliases+events+meta-processes, linked/monitored by observers and linking/monitoring another process, terminated by each cause; non-trivial iff >=1 name, alias, event, meta and >=1 relation in each role. alias-sequences A: every create/delete order up to 4 aliases. ids I: everything minted is kept and compared exactly. distinct = scenario x parameters x observed overlap class")
+	hk.Rule("name-linearizability L/k: 1-3 names x 3-6 client goroutines x 8-21 seeded random operations (Node.RegisterName, Process.RegisterName, SpawnRegister, Node/Process.UnregisterName, terminate by kill/exit/normal, resolve by send or Call) over processes dedicated to one name, seeded delays at the yield points of unregisterProcess/Kill/run (odd k: also inside RegisterName/UnregisterName); non-trivial iff >=2 claim operations of one name overlapped in time; event-linearizability E/k the same for one event name with tokens. one-winner W/WE: n claimers released together from a gate, non-trivial iff >=2 claim intervals overlapped; W1: n different names claimed at once for ONE process, every granted name must reach it and be released when it terminates. directed D: an operation parked at a yield point (or inside a callback) while the process terminates completely, non-trivial iff the gate fired. release R/cause/shape: subject with name+aliases+events+meta-processes, linked/monitored by observers and linking/monitoring another process, terminated by each cause; non-trivial iff >=1 name, alias, event, meta and >=1 relation in each role. alias-sequences A: every create/delete order up to 4 aliases. ids I: everything minted is kept and compared exactly; pids also with failing Inits interleaved (non-trivial iff failed Inits and children spawned inside Init occurred). distinct = scenario x parameters x observed overlap class")
 	hk.Assume("a claimer process is dedicated to one name, so the per-process one-name flag does not couple partitions")
 	hk.Assume("termination of a process is complete when its Terminate callback is over: unregisterProcess precedes that callback on every termination path")
 	hk.Assume("a resolve that returned ErrProcessTerminated, or whose message was accepted but never handled, carries no information about the owner and is left out of the history")
@@ -61,6 +61,7 @@ func main() {
 	}
 	if fam("I") {
 		runPids() // first: a repeated pid would confuse every later case
+		runPidsFailing()
 		lap("ids-pids")
 	}
 	if fam("D") {
